@@ -769,6 +769,9 @@ func indexGuard(p *Prog, at ssa.Instruction, coll, idx ssa.Value) string {
 		}
 	}
 	if k, isK := ConstInt(idx); isK {
+		if k == 0 && strings.HasSuffix(PkgOf(at.Parent()), "/core/plugin") && reflectCallResult(coll, 0) {
+			return "first result of a reflected call of a registered constructor / factory / default-config function: the plugin pack proves at registration (O18.1) that these have at least one result"
+		}
 		if n, ok := capturedLenBound(at, coll); ok && n > k {
 			return fmt.Sprintf("captured slice, never reassigned, with len >= %d checked before the closure was created", n)
 		}
@@ -1557,4 +1560,45 @@ func allReturnsNonNilPointer(fn *ssa.Function) bool {
 		}
 	}
 	return n > 0
+}
+
+
+// reflectCallResult: the slice is the result of reflect.Value.Call, directly or as a parameter that every caller in
+// the package fills with one.
+func reflectCallResult(v ssa.Value, depth int) bool {
+	if depth > 2 {
+		return false
+	}
+	rs := Roots(v, false)
+	if len(rs) == 0 {
+		return false
+	}
+	for _, r := range rs {
+		if cl, _ := CallOfValue(r); cl != nil {
+			if f := CalleeObj(&cl.Call); f != nil && f.Name() == "Call" && f.Pkg() != nil && f.Pkg().Path() == "reflect" {
+				continue
+			}
+			return false
+		}
+		pr, ok := r.(*ssa.Parameter)
+		if !ok {
+			return false
+		}
+		sites := pkgCallers(pr.Parent())
+		if len(sites) == 0 {
+			return false
+		}
+		for i, q := range pr.Parent().Params {
+			if q != pr {
+				continue
+			}
+			for _, s := range sites {
+				cc := CC(s)
+				if cc == nil || i >= len(cc.Args) || !reflectCallResult(cc.Args[i], depth+1) {
+					return false
+				}
+			}
+		}
+	}
+	return true
 }
